@@ -2,7 +2,7 @@
    Statements only (copied from the lemma libraries); every proof is a bare
    `exact`; see the cited files in coq/proofs for the proofs. *)
 From Coq Require Import List NArith ZArith Bool Arith Sorting.Sorted Sorting.Permutation.
-From D2P Require Import Str Err Xml TableTypes Tables Fmt Bullets Merge Collector Walk ShapeFacts BulletsFacts GridFacts.
+From D2P Require Import Str Err Xml TableTypes Tables Fmt Bullets Merge Collector Walk ShapeFacts BulletsFacts GridFacts LineageFacts FrameFacts GridWalk.
 Import ListNotations.
 Local Open Scope nat_scope.
 
@@ -106,3 +106,76 @@ Theorem C04_continuation_without_cell_above :
   nth_error (grid_row true prev cells []) j = Some (cs_own c).
 Proof. exact grid_true_cont_fallback. Qed.
 Print Assumptions C04_continuation_without_cell_above.
+
+(* END TO END: walking a whole table written as tbl/tr/tc/p (any number of rows and cells, any spans and continuation flags, from any reachable state) appends exactly ONE table to the extracted structure, and that table is the grid function applied to the source: one cellspec per w:tc with its span, continuation flag, and as own content exactly one record per w:p of that cell, pointing at that very paragraph (partial: children of tbl/tr/tc other than rows, cells, paragraphs must be inert - tblPr, tblGrid, trPr, tcPr are - or a paragraph is open; see the counterexample) *)
+Theorem C04_whole_table_walk :
+  forall v t path s s',
+  flat_tbl t = true -> tbl_fill (nonempty (c_open s)) t = true ->
+  Inv s -> walk v path t s = Ok s' ->
+  exists rows : list (list cellspec),
+    table_spec path t rows /\
+    c_tree s' = NL (rev (map (fun r => NL (rev r)) (grid (env_dup v) None rows))) :: c_tree s.
+Proof. exact flat_tbl_walk_is_grid_partial. Qed.
+Print Assumptions C04_whole_table_walk.
+
+(* hence, when every row spans W columns: one extracted row per source row, W cells per row *)
+Theorem C04_whole_table_n_by_m :
+  forall v t path s s',
+  flat_tbl t = true -> tbl_fill (nonempty (c_open s)) t = true ->
+  Inv s -> walk v path t s = Ok s' ->
+  exists (rows : list (list cellspec)) (tbl : list node),
+    table_spec path t rows /\ c_tree s' = NL tbl :: c_tree s /\
+    Forall (Forall (fun c => 1 <= cs_span c)) rows /\
+    forall W, Forall (fun r => row_width r = W) rows ->
+      length tbl = length rows /\
+      Forall (fun r => exists cells, r = NL cells /\ length cells = W) tbl.
+Proof. exact flat_tbl_n_by_m. Qed.
+Print Assumptions C04_whole_table_n_by_m.
+
+(* and the content of every grid position: own content then blanks (False); own content then copies (True); a continuation repeats the extracted cell above *)
+Theorem C04_whole_table_positions :
+  forall v t path s s',
+  flat_tbl t = true -> tbl_fill (nonempty (c_open s)) t = true ->
+  Inv s -> walk v path t s = Ok s' ->
+  exists (rows : list (list cellspec)) (G : list (list node)),
+    table_spec path t rows /\ G = grid (env_dup v) None rows /\
+    c_tree s' = NL (rev (map (fun r => NL (rev r)) G)) :: c_tree s /\
+    forall i r j c, nth_error rows i = Some r -> In (j, c) (start_cols r 0) ->
+      exists out, nth_error G i = Some out /\
+        (env_dup v = false ->
+           nth_error out j = Some (cs_own c)
+           /\ forall k, 1 <= k < cs_span c -> nth_error out (j + k) = Some blank_cell) /\
+        (env_dup v = true -> cs_cont c = false ->
+           nth_error out j = Some (cs_own c)
+           /\ forall k, 1 <= k < cs_span c ->
+                nth_error out (j + k) = Some (copy_node (cs_own c))) /\
+        (env_dup v = true -> cs_cont c = true ->
+           forall i' above src, i = S i' -> nth_error G i' = Some above ->
+             nth_error above j = Some src ->
+             forall k, k < cs_span c -> nth_error out (j + k) = Some (copy_node src)).
+Proof. exact flat_tbl_positions. Qed.
+Print Assumptions C04_whole_table_positions.
+
+(* the same in document order (what the caller sees) *)
+Theorem C04_whole_table_document_order :
+  forall v t path s s',
+  flat_tbl t = true -> tbl_fill (nonempty (c_open s)) t = true ->
+  Inv s -> walk v path t s = Ok s' ->
+  exists rows : list (list cellspec),
+    table_spec path t rows /\
+    unrev_list (c_tree s')
+    = unrev_list (c_tree s)
+      ++ [NL (map NL (grid (env_dup v) None (map (map unrev_spec) rows)))].
+Proof. exact flat_tbl_walk_is_grid_doc. Qed.
+Print Assumptions C04_whole_table_document_order.
+
+(* the side condition is needed: a stray w:r directly under w:tbl opens an implicit paragraph and adds a row *)
+Theorem C04_stray_run_refuted :
+  exists v t path s s',
+    flat_tbl t = true /\ Inv s /\ walk v path t s = Ok s' /\
+    ~ (exists rows : list (list cellspec),
+         table_spec path t rows /\
+         c_tree s' = NL (rev (map (fun r => NL (rev r)) (grid (env_dup v) None rows)))
+                     :: c_tree s).
+Proof. exact flat_tbl_walk_is_grid_counterexample. Qed.
+Print Assumptions C04_stray_run_refuted.
